@@ -10,15 +10,17 @@ CONSTANTS MaxCalls,       \* length of the call history
           MaxIO,          \* fault positions 1..MaxIO are explored (plus "no fault")
           TwoFaults,      \* TRUE: a second fault at a later I/O position is explored as well
           MaxPolicyChanges, \* how often the target may change its admission policy between calls (busy now, free later)
-          Gen             \* TRUE: carry the history and print terminal behaviours (R2)
+          Gen,            \* TRUE: carry the history and print terminal behaviours (R2)
+          FreshTriad      \* TRUE (the library): open() draws new connection serial numbers; FALSE: drawn once per driver object
 
 Calls    == {"open", "close", "msgC", "msgU"}
 Policies == {"LargeOK", "LargeRefused", "AllRefused", "SessionRefused"}
 
 VARIABLES policy, fault,          \* environment choices, fixed at Init: fault = [kind, at] or [kind |-> "none", at |-> 0]
           io, gone,               \* raw I/O operations so far; peer vanished
-          drv,                    \* driver: [sock, opened, session, connected, ext, size, cid]
-          tgt,                    \* target: [sessions, conns (set of [cid, sess, size]), next]
+          drv,                    \* driver: [sock, opened, session, connected, ext, size, cid, triad]
+          tgt,                    \* target: [sessions, conns (set of [cid, sess, size, triad]), next, old, ntriad]
+                                  \*   old = serial-number triads of connections still held when a close() of the driver returned
           told,                   \* connection ids whose Forward Open reply reached the driver
           call, pc, err,          \* current call, control point, error collected by close()
           ncalls, hist, result,   \* calls finished, history (Gen), outcome of the last call
@@ -31,8 +33,8 @@ Init == /\ policy \in Policies
         /\ fault \in {NoFault} \cup [kind : {"raise", "eof"}, at : 1..MaxIO, kind2 : {"none"}, at2 : {0}]
                      \cup (IF TwoFaults THEN {f \in [kind : {"raise"}, at : 1..MaxIO, kind2 : {"raise", "eof"}, at2 : 1..MaxIO] : f.at < f.at2} ELSE {})
         /\ io = 0 /\ gone = FALSE
-        /\ drv = [sock |-> FALSE, opened |-> FALSE, session |-> 0, connected |-> FALSE, ext |-> TRUE, size |-> 4000, cid |-> 0]
-        /\ tgt = [sessions |-> {}, conns |-> {}, next |-> 1]
+        /\ drv = [sock |-> FALSE, opened |-> FALSE, session |-> 0, connected |-> FALSE, ext |-> TRUE, size |-> 4000, cid |-> 0, triad |-> 0]
+        /\ tgt = [sessions |-> {}, conns |-> {}, next |-> 1, old |-> {}, ntriad |-> 0]
         /\ told = {} /\ call = "idle" /\ pc = "idle" /\ err = FALSE
         /\ ncalls = 0 /\ hist = <<>> /\ result = "none" /\ closeFault = FALSE /\ viol = "" /\ pch = 0
 
@@ -54,11 +56,15 @@ Begin(c) == /\ call = "idle" /\ ncalls < MaxCalls /\ viol = ""
             /\ UNCHANGED <<policy, fault, io, gone, drv, tgt, told, err, ncalls, hist, result, viol>>
 
 \* ---- open(): socket, connect, register session; any exception becomes CommError
+\* the connection serial numbers (T->O connection id, originator serial) drawn by open(): never seen before when FreshTriad
+Drawn == IF FreshTriad THEN tgt.ntriad + 1 ELSE drv.triad
 O1 == /\ pc = "o1"
       /\ IF drv.opened THEN Finish("true") /\ UNCHANGED <<drv>>
-         ELSE IF drv.session # 0 THEN Finish("true") /\ drv' = [drv EXCEPT !.sock = TRUE, !.opened = TRUE]     \* _register_session returns the old id
-         ELSE pc' = "o2" /\ drv' = [drv EXCEPT !.sock = TRUE, !.opened = TRUE] /\ UNCHANGED <<call, result, ncalls, hist, err>>
-      /\ UNCHANGED <<policy, fault, io, gone, tgt, told, closeFault, viol>>
+         ELSE IF drv.session # 0 THEN Finish("true") /\ drv' = [drv EXCEPT !.sock = TRUE, !.opened = TRUE, !.triad = Drawn]     \* _register_session returns the old id
+         ELSE pc' = "o2" /\ drv' = [drv EXCEPT !.sock = TRUE, !.opened = TRUE, !.triad = Drawn] /\ UNCHANGED <<call, result, ncalls, hist, err>>
+      \* (the counter of drawn values is kept with the target only to keep the state small: it is the environment's randomness)
+      /\ tgt' = IF drv.opened \/ ~FreshTriad THEN tgt ELSE [tgt EXCEPT !.ntriad = @ + 1]
+      /\ UNCHANGED <<policy, fault, io, gone, told, closeFault, viol>>
 O2 == /\ pc = "o2" /\ IoStep                                       \* send RegisterSession
       /\ IF IoFails THEN Finish("CommError") /\ UNCHANGED tgt
          ELSE /\ pc' = "o3" /\ UNCHANGED <<call, result, ncalls, hist, err>>
@@ -95,7 +101,8 @@ C4 == /\ pc = "c4"                                                 \* _un_regist
       /\ UNCHANGED <<policy, fault, told, call, ncalls, hist, result, viol>>
 C5 == /\ pc = "c5"                                                 \* socket close + unconditional reset
       /\ drv' = [drv EXCEPT !.sock = FALSE, !.connected = FALSE, !.session = 0, !.opened = FALSE]
-      /\ tgt' = [tgt EXCEPT !.sessions = {}]                        \* the TCP close ends the session
+      /\ tgt' = [tgt EXCEPT !.sessions = {},                        \* the TCP close ends the session (not the connections: routed targets)
+                             !.old = @ \cup {c.triad : c \in tgt.conns}]
       /\ viol' = IF ~closeFault /\ ~gone /\ (\E c \in tgt.conns : c.cid \in told) THEN "target-dirty" ELSE viol
       /\ told' = {}                                                \* whatever was open is forgotten: later closes cannot be held to it
       /\ Finish(IF err THEN "CommError" ELSE "none")
@@ -107,13 +114,17 @@ M1 == /\ pc = "m1"
          ELSE IF drv.session = 0 THEN Finish("CommError")
          ELSE pc' = "m2" /\ UNCHANGED <<call, result, ncalls, hist, err>>
       /\ UNCHANGED <<policy, fault, io, gone, drv, tgt, told, closeFault, viol>>
-Accepts == policy = "LargeOK" \/ (policy \in {"LargeRefused", "SessionRefused"} /\ ~drv.ext)
+Dup     == \E c \in tgt.conns : c.triad = drv.triad                \* the target still holds a connection with these serial numbers
+Accepts == ~Dup /\ (policy = "LargeOK" \/ (policy \in {"LargeRefused", "SessionRefused"} /\ ~drv.ext))
 M2 == /\ pc = "m2" /\ IoStep                                       \* send (Large) Forward Open
       /\ IF ~drv.sock \/ IoFails THEN Finish("CommError") /\ UNCHANGED tgt
          ELSE /\ pc' = "m3" /\ UNCHANGED <<call, result, ncalls, hist, err>>
               /\ tgt' = IF drv.session \in tgt.sessions /\ Accepts
-                        THEN [tgt EXCEPT !.conns = @ \cup {[cid |-> tgt.next, sess |-> drv.session, size |-> drv.size]}, !.next = @ + 1] ELSE tgt
-      /\ viol' = IF drv.ext /\ drv.size # 4000 THEN "fo-size" ELSE IF ~drv.ext /\ drv.size # 500 THEN "fo-size" ELSE viol
+                        THEN [tgt EXCEPT !.conns = @ \cup {[cid |-> tgt.next, sess |-> drv.session, size |-> drv.size, triad |-> drv.triad]}, !.next = @ + 1] ELSE tgt
+      /\ viol' = IF drv.ext /\ drv.size # 4000 THEN "fo-size" ELSE IF ~drv.ext /\ drv.size # 500 THEN "fo-size"
+                 \* a connection that outlived a close() (lost Forward Close) must not make the re-opened driver unusable
+                 ELSE IF drv.sock /\ ~IoFails /\ drv.session \in tgt.sessions /\ Dup /\ drv.triad \in tgt.old THEN "reopen-duplicate-connection"
+                 ELSE viol
       /\ UNCHANGED <<policy, fault, drv, told>>
 M3 == /\ pc = "m3" /\ IoStep
       /\ IF IoFails THEN Finish("CommError") /\ UNCHANGED <<drv, told>>
